@@ -138,6 +138,16 @@ def mutations(text, ops=None):
             yield ('extra-components@%d:%s' % (i, sid), join_segments(d, segs[:i] + [segs[i] + (sub + 'A') * 3] + segs[i + 1:]))
             yield ('trailing-empty-elements@%d:%s' % (i, sid), join_segments(d, segs[:i] + [segs[i] + ele + ele] + segs[i + 1:]))
             yield ('trailing-empty-component@%d:%s' % (i, sid), join_segments(d, segs[:i] + [segs[i] + sub] + segs[i + 1:]))
+            # a composite cut short: only its first k components are sent (a required later component is then missing)
+            parts_ = segs[i].split(ele)
+            for j in range(1, len(parts_)):
+                comps_ = parts_[j].split(sub)
+                for k in range(1, len(comps_)):
+                    p2_ = list(parts_); p2_[j] = sub.join(comps_[:k])
+                    yield ('cut-composite@%d:%s%02d-%d' % (i, sid, j, k), join_segments(d, segs[:i] + [ele.join(p2_)] + segs[i + 1:]))
+                    if k >= 2:
+                        p3_ = list(parts_); p3_[j] = sub.join(comps_[:k - 1] + [''])
+                        yield ('cut-composite-keep-separator@%d:%s%02d-%d' % (i, sid, j, k), join_segments(d, segs[:i] + [ele.join(p3_)] + segs[i + 1:]))
             yield ('long-element@%d:%s' % (i, sid), join_segments(d, segs[:i] + [segs[i] + ele + 'A' * 9000] + segs[i + 1:]))
             for orphan in ('SE' + ele + '1' + ele + '0001', 'GE' + ele + '1' + ele + '1', 'IEA' + ele + '1' + ele + '000000001',
                            'ST' + ele + '837' + ele + '0009', 'GS' + ele + 'HC' + ele + 'S' + ele + 'R' + ele + '20040102' + ele + '1200' + ele + '9' + ele + 'X' + ele + '004010X098A1',
